@@ -58,6 +58,7 @@ def check(ctx) -> None:
     r77(ctx)
     r78(ctx)
     r79(ctx)
+    r710(ctx)
 
 
 def r71(ctx) -> None:
@@ -559,3 +560,41 @@ def r79(ctx) -> None:
     R.ok(raw, raw.node, 'FetchAttribute.raw echo analysed',
          f'verbatim echo of stored headers: {echoes_verbatim}; re-quotes: '
          f'{requotes}')
+
+
+def r710(ctx) -> None:
+    R = ctx.rule('R7.10', 'lazily rendered FETCH values are only written '
+                 'with their content provider set', 1)
+    ma = ctx.proj.cls('pymap/fetch.py', 'MessageAttributes')
+    f = ma.own_method('load_hook')
+    if f is None:
+        raise AnchorError('MessageAttributes.load_hook vanished')
+    from ..facts import enclosing
+    ys = [y for y in walk_local(f.node) if isinstance(y, (ast.Yield,
+                                                          ast.YieldFrom))]
+    if not ys:
+        raise AnchorError('load_hook does not yield')
+    loaded = {t.id for s_ in walk_local(f.node) if isinstance(s_, ast.Assign)
+              and isinstance(strip_await(s_.value), ast.Call)
+              and call_name(strip_await(s_.value)) == 'load_content'
+              for t in s_.targets if isinstance(t, ast.Name)}
+    for y in ys:
+        inside = False
+        for cur in enclosing(f.node, y, (ast.With, ast.AsyncWith)):
+            if True:
+                for it in cur.items:
+                    c = it.context_expr
+                    if isinstance(c, ast.Call) and call_name(c) == 'apply' \
+                            and '_get_loaded' in txt(c.func.value) and c.args \
+                            and isinstance(c.args[0], ast.Name) and \
+                            c.args[0].id in loaded:
+                        inside = True
+        R.check(inside, f, y, 'load_hook yields inside `with '
+                'self._get_loaded.apply(<load_content result>)`',
+                'load_hook yields on a path where no loaded message was '
+                'handed to the provider (e.g. skipping load_content for '
+                'expunged messages): FetchResponse.write renders the values '
+                'lazily inside this hook, and every content value without a '
+                'provider writes the log placeholder — the wire carries '
+                '`* 4 FETCH (RFC822.SIZE ... ENVELOPE ...)`, which is not an '
+                'nstring, number or list')
